@@ -4,8 +4,8 @@ from common import *
 import decl, pktcases
 
 PID = 'C06'
-TARGETS = ['Properties/C06.vo', 'Bridge/DataBridge.vo', 'Bridge/PlumbingBridge.vo']
-KERNELS = ['G8_data', 'G19_field_ctor']
+TARGETS = ['Properties/C06.vo', 'Bridge/RefBridge.vo', 'Bridge/DataBridge.vo', 'Bridge/PlumbingBridge.vo']
+KERNELS = ['G8_data', 'G19_field_ctor', 'G16b_optional']     # G16b: Sequence/Optional._compile hand the class configuration (search window) to the wrapped field
 PROP_FILE = 'Properties/C06.v'
 
 
@@ -77,7 +77,14 @@ def table_for(cfg):
             fields.append({'move': None, 'body': ('elem', ('leaf', ('dsized', e, how, b'')))})
     elif kind == 'marker':
         conf['sbl'] = cfg[3]
-        fields.append({'move': None, 'body': ('elem', ('leaf', ('dmarker', cfg[1], cfg[2], b'')))})
+        leaf = ('leaf', ('dmarker', cfg[1], cfg[2], b''))
+        wrap = cfg[4] if len(cfg) > 4 else None
+        if wrap == 'seq':        # the same field as the single element of a repeated field: the search window must reach it
+            fields.append({'move': None, 'body': ('seq', leaf, (('lit', 1), 'const'), None, None, None, None)})
+        elif wrap == 'opt':      # ... and behind an optional that is present
+            fields.append({'move': None, 'body': ('opt', leaf, (('lit', 1), 'lambda'), None)})
+        else:
+            fields.append({'move': None, 'body': ('elem', leaf)})
     elif kind == 'regex':
         conf['sbl'] = cfg[3]
         fields.append({'move': None, 'body': ('elem', ('leaf', ('dregex', cfg[1], cfg[2], b'')))})
@@ -98,6 +105,11 @@ def run(tier, seed, rng):
             for incl in (False, True):
                 for sbl in (None, 0, 1, 2, 3, 4):
                     cfgs.append(('marker', bytes(m), incl, sbl))
+    for m in (b'a', b'ab', b'bab'):
+        for incl in (False, True):
+            for sbl in (None, 2, 3):
+                for wrap in ('seq', 'opt'):
+                    cfgs.append(('marker', m, incl, sbl, wrap))
     rx = [[('plus', 97)], [('lit', b'ab'), ('lit', b'a')], [('lit', b'b'), ('lit', b'ab')], [('lit', b'aa'), ('plus', 98)],
           [('plus', 98), ('lit', b'ba')], [('lit', b'aba')]]
     for alts in rx:
@@ -148,7 +160,10 @@ def run(tier, seed, rng):
             want = ref(cfg, raw, off)
             fidx = 0
         if 'ok' in o:
-            got = (bytes.fromhex(dict(o['ok']['f'])[f'f{fidx}']['x']), o['end'])
+            fv = dict(o['ok']['f'])[f'f{fidx}']
+            if isinstance(fv, list) and len(fv) == 1:     # wrapped in a one-element repeated field
+                fv = fv[0]
+            got = (bytes.fromhex(fv['x']), o['end']) if isinstance(fv, dict) and 'x' in fv else ('odd', str(fv))
         elif o.get('err') == 'unpacking':
             got = None
         else:
